@@ -562,7 +562,10 @@ TIE_ONLY = {"C08:draw-kind", "C08:rng", "C08:data-mutated", "C08:input-mutated",
 
 
 def report(res, what, case, observed, required, signature):
-    if signature in TIE_ONLY:
+    if signature.startswith("C08I:"):
+        # the interaction sampler is an EXTENSION beyond C08's text: recorded and printed, never affects the result
+        res.advise(what, case, observed, required, signature)
+    elif signature in TIE_ONLY:
         res.count("tie_only." + signature)
         res.disagree(signature + " (" + what + ")", case, observed, required)
     else:
@@ -855,23 +858,31 @@ def compare_with_model(res, case, out, log, trace, after, pred, N, sweep_no, sta
     inter = stages is not None
     STAGES = stages or globals()["STAGES"]
     state_floats = state_floats or globals()["state_floats"]
+
+    class _R:      # disagreements of the interaction-sampler extension are advisories
+        @staticmethod
+        def disagree(where_, case_, impl, model):
+            if inter:
+                res.advise("interaction sampler: model/implementation disagreement at " + where_, case_, impl, model, where_)
+            else:
+                res.disagree(where_, case_, impl, model)
     parts = out.split(" ")
     if len(parts) != 5:
-        res.disagree(where, case, "sweep %d" % sweep_no, out[:300])
+        _R.disagree(where, case, "sweep %d" % sweep_no, out[:300])
         return False
     mlog = [] if parts[0] == "-" else parts[0].split(";")
     if len(mlog) != len(log) or [m.split(":")[0] for m in mlog] != [l[0] for l in log]:
-        res.disagree(where + ":order", case, [l[0] for l in log], [m.split(":")[0] for m in mlog])
+        _R.disagree(where + ":order", case, [l[0] for l in log], [m.split(":")[0] for m in mlog])
         return False
     for m, (site, kind, args, scale, _v) in zip(mlog, log):
         _s, mk, ma = m.split(":")
         margs = parse_floats(ma)
         if mk != kind or len(margs) != len(args) or not close(margs, args, scale):
-            res.disagree(where + ":args", dict(case, sweep=sweep_no, site=site), {"kind": kind, "args": args[:12]}, {"kind": mk, "args": margs[:12]})
+            _R.disagree(where + ":args", dict(case, sweep=sweep_no, site=site), {"kind": kind, "args": args[:12]}, {"kind": mk, "args": margs[:12]})
             return False
     mmus = parts[1].split(";")
     if len(mmus) != len(STAGES):
-        res.disagree(where, case, len(STAGES), len(mmus))
+        _R.disagree(where, case, len(STAGES), len(mmus))
         return False
     for name, mm, im, st in zip(STAGES, mmus, trace["mus"], trace["snaps"]):
         mm = parse_floats(mm)
@@ -879,7 +890,7 @@ def compare_with_model(res, case, out, log, trace, after, pred, N, sweep_no, sta
             continue
         sc_ = trace["muabs"][name]
         if len(mm) != len(im) or not close(mm, im, sc_):
-            res.disagree(where + ":Mu", dict(case, sweep=sweep_no, stage=name), np.asarray(im).tolist()[:12], mm[:12])
+            _R.disagree(where + ":Mu", dict(case, sweep=sweep_no, stage=name), np.asarray(im).tolist()[:12], mm[:12])
             return False
     mstate = parse_floats(parts[2])
     istate = state_floats(after, N)
@@ -889,15 +900,15 @@ def compare_with_model(res, case, out, log, trace, after, pred, N, sweep_no, sta
         if not inter:
             sscale[0] = log[0][3][0] + 1.0      # alpha = float32 mean of the observations: noise relative to mean|y|
     if len(mstate) != len(istate) or not close(mstate, istate, sscale):
-        res.disagree(where + ":state", dict(case, sweep=sweep_no), istate[:16], mstate[:16])
+        _R.disagree(where + ":state", dict(case, sweep=sweep_no), istate[:16], mstate[:16])
         return False
     mpred = parse_floats(parts[3])
     if N and (len(mpred) != N or not close(mpred, pred, trace["muabs"][STAGES[-1]])):
-        res.disagree(where + ":predict", dict(case, sweep=sweep_no), np.asarray(pred).tolist()[:12], mpred[:12])
+        _R.disagree(where + ":predict", dict(case, sweep=sweep_no), np.asarray(pred).tolist()[:12], mpred[:12])
         return False
     mvar = from_bits(parts[4])
     if not close(mvar, 1.0 / after["prec"], 1.0 / after["prec"]):
-        res.disagree(where + ":variance", dict(case, sweep=sweep_no), 1.0 / after["prec"], mvar)
+        _R.disagree(where + ":variance", dict(case, sweep=sweep_no), 1.0 / after["prec"], mvar)
         return False
     return True
 
@@ -1464,7 +1475,7 @@ def irun_case(spec, res, iqueue):
             prev = None
             fresh, _ = ibuild(spec)
             if bookkeeping_differs(bookkeeping(w), bookkeeping(fresh.wrapped_model)):
-                fail("interaction sampler: bookkeeping after instalments differs from a single add_observations", "differs", "equal", "C08:instalments-state")
+                fail("interaction sampler: bookkeeping after instalments differs from a single add_observations", "differs", "equal", "C08I:instalments-state")
             res.count("class.inter.instalments.add-step-add-step")
         if spec["perturb"] and sweep_no == 0:
             iperturb(w, rng, N)
@@ -1502,6 +1513,17 @@ def irun_case(spec, res, iqueue):
     res.traces_validated += 1
 
 
+def irun_case_guarded(spec, res, iqueue):
+    """nothing in the extension stream may affect the result of C08: a crash is an advisory too"""
+    n0 = len(iqueue)
+    try:
+        irun_case(spec, res, iqueue)
+    except Exception as e:      # noqa: BLE001
+        del iqueue[n0:]
+        res.advise("interaction sampler stream: %s: %s" % (type(e).__name__, str(e)[:200]),
+                   {k: spec.get(k) for k in ("stream", "case_seed", "nC", "nT", "D", "sweeps")}, None, None, "C08I:crash")
+
+
 def inter_class_specs(seed):
     rng = random.Random(seed)
     sbf = [[0, 0, 1], [1, 1, 2], [0, 2, 0], [1, 0, 2], [0, 1, 0], [1, 2, 1], [0, 1, 2], [1, 2, 0]]
@@ -1532,13 +1554,13 @@ def inter_stream(ctx, res, iqueue):
         res.count("inter.D=%d" % spec["D"])
         res.count("inter.cases.perturbed", int(spec["perturb"]))
         res.count("inter.cases.screen_with_non_combination_rows", int(bool(spec["extra"])))
-        irun_case(spec, res, iqueue)
+        irun_case_guarded(spec, res, iqueue)
     for t in range(ctx.scale(3, 20, 8)):
-        irun_case(igen_spec(rng.randrange(2 ** 48), 2, selfpair=True), res, iqueue)
+        irun_case_guarded(igen_spec(rng.randrange(2 ** 48), 2, selfpair=True), res, iqueue)
     # hardening classes on the interaction sampler, deterministic shapes
     crng = random.Random(ctx.subrng("inter-class").randrange(2 ** 48))
     for ci, spec in enumerate(inter_class_specs(crng.randrange(2 ** 48))):
-        irun_case(spec, res, iqueue)
+        irun_case_guarded(spec, res, iqueue)
 
 
 def mvn_stream(ctx, res, lines, cbs):
@@ -1661,7 +1683,7 @@ def replay(ctx, case, res):
             ispec = cand[0]
         else:
             ispec = igen_spec(case["case_seed"], case.get("max_sweeps", 3), selfpair=case["stream"] == "inter-selfpair")
-        irun_case(ispec, res, iqueue)
+        irun_case_guarded(ispec, res, iqueue)
         if ctx.driver is not None and iqueue:
             for q, out in zip(iqueue, ctx.driver.ask([q[0] for q in iqueue])):
                 line, c, log, trace, after, pred, N, sweep_no = q
